@@ -39,6 +39,7 @@ def main(tier):
     chk.run("R-KLEENE", MB.kleene, cx.cpp, floor=36)
     chk.run("R-OKTABLE", MB.oktable, cx.cpp, cx.templates, floor=8)
     chk.run("R-MIRROR", CC.mirror, cx.cpp, floor=8)
+    chk.run("R-ELEMLOOP", WN.elemloops, cx.cpp, floor=5)
     chk.run("R-ARRAYELEM", WN.arrayelem, cx.cpp, floor=6)
     chk.run("R-DOLLAR", B.dollar, r, floor=10)
     chk.run("R-ACCESSOR", B.accessor, r, floor=5)
